@@ -32,6 +32,7 @@ import (
 	"os"
 	"path/filepath"
 	"reflect"
+	"sort"
 	"strconv"
 	"strings"
 	"time"
@@ -547,10 +548,28 @@ func evalAfterHistory(c Case, ctx map[string]interface{}, prepare func(*evalEngi
 	if prepare != nil {
 		prepare(ee)
 	}
+	// every other template of the case is rendered on its own first (a layout before the page that extends it, a
+	// partial before the page that includes it), with this context and with an empty one
+	var others []string
+	for n := range names {
+		if n != c.str("main") {
+			others = append(others, n)
+		}
+	}
+	sort.Strings(others)
+	for _, n := range others {
+		if _, cl, _ := ee.renderGuarded(n, ctx); cl == "hang" {
+			return "rendering " + n + " of the case on its own: no answer within 30 s"
+		}
+		ee.renderGuarded(n, map[string]interface{}{})
+		if evalAbort {
+			return "rendering " + n + " of the case on its own with an empty context: no answer within 30 s"
+		}
+	}
 	for i := 1; i <= 2; i++ {
 		out2, class2, _ := ee.renderGuarded(c.str("main"), ctx)
 		if out2 != out || class2 != class {
-			return fmt.Sprintf("on an engine with a past (other templates under these names, a refused template, a failed render), render %d: ", i) + evalObserved(out2, class2) + " instead of " + evalObserved(out, class)
+			return fmt.Sprintf("on an engine with a past (other templates under these names, a refused template, a failed render, the other templates of the case rendered on their own), render %d: ", i) + evalObserved(out2, class2) + " instead of " + evalObserved(out, class)
 		}
 	}
 	return ""
